@@ -54,21 +54,45 @@ class FakeConnection:
         self.open = False
 
 
+class Raises:
+    """Marker for an attribute whose read raised (makes every comparison fail)."""
+
+    def __init__(self, exc):
+        self.text = f"<reading raised {type(exc).__name__}: {exc}>"
+
+    def __repr__(self):
+        return self.text
+
+    def __eq__(self, other):
+        return False
+
+    def __hash__(self):
+        return hash(self.text)
+
+
+def _read(obj, name):
+    try:
+        return getattr(obj, name)
+    except Exception as exc:  # pylint: disable=broad-except
+        return Raises(exc)
+
+
 def projection(gateway):
     """Observable node/child/value tree of a real gateway (raw Python values)."""
     out = {}
     for nid, s in gateway.sensors.items():
+        children = _read(s, "children")
         out[nid] = {
-            "type": s.type,
-            "protocol_version": s.protocol_version,
-            "battery_level": s.battery_level,
-            "heartbeat": s.heartbeat,
-            "sketch_name": s.sketch_name,
-            "sketch_version": s.sketch_version,
+            "type": _read(s, "type"),
+            "protocol_version": _read(s, "protocol_version"),
+            "battery_level": _read(s, "battery_level"),
+            "heartbeat": _read(s, "heartbeat"),
+            "sketch_name": _read(s, "sketch_name"),
+            "sketch_version": _read(s, "sketch_version"),
             "children": {
-                cid: {"type": c.type, "description": c.description, "values": dict(c.values)}
-                for cid, c in s.children.items()
-            },
+                cid: {"type": _read(c, "type"), "description": _read(c, "description"), "values": dict(_read(c, "values"))}
+                for cid, c in children.items()
+            } if isinstance(children, dict) else children,
         }
     return out
 
